@@ -17,6 +17,8 @@ type Obligation struct {
 	Guard   T
 	Formula T
 	Pos     int // number of session assertions visible to this obligation
+	Skip    [][2]int // assertion index ranges [from,to) hidden from this obligation (isolated loops)
+	Tag     int      // isolated loop body this obligation lives in (0 = none): quantified facts of other isolated bodies are hidden
 	Result  SolveResult
 	File    string
 	Extra   map[string]string
@@ -29,6 +31,10 @@ type namedTerm struct {
 }
 
 type Session struct {
+	curTag     int   // >0: assertions made now belong to the body of this isolated loop (header block index + 1)
+	assertTags []int // per assertion: owning isolated loop body (0 = none)
+	reqEnd  int        // number of assertions after the requires of the function under proof were assumed
+	curSkip [][2]int   // hidden assertion ranges for obligations created now
 	opaqueAtoms map[string]T
 	opaqueDefs  []opaqueDef
 	heapDefs map[string]heapDef
@@ -103,6 +109,13 @@ func (s *Session) declFun(name string, argSorts []string, ret string) string {
 	return q
 }
 
+func (s *Session) tagAssert() {
+	for len(s.assertTags) < len(s.asserts)-1 {
+		s.assertTags = append(s.assertTags, 0)
+	}
+	s.assertTags = append(s.assertTags, s.curTag)
+}
+
 func (s *Session) fresh(hint, sort string) T {
 	s.nfresh++
 	return s.declConst(fmt.Sprintf("%s!%d", hint, s.nfresh), sort)
@@ -113,6 +126,7 @@ func (s *Session) assume(f T) {
 		return
 	}
 	s.asserts = append(s.asserts, "(assert "+f.S+")")
+	s.tagAssert()
 }
 
 // define names a complex term (keeps VCs DAG-shaped).
@@ -122,6 +136,7 @@ func (s *Session) define(hint string, t T) T {
 	}
 	c := s.fresh(hint, t.Sort)
 	s.asserts = append(s.asserts, fmt.Sprintf("(assert (= %s %s))", c.S, t.S))
+	s.tagAssert()
 	return c
 }
 
@@ -193,6 +208,10 @@ func (s *Session) addObl(o *Obligation) {
 		o.Name = fmt.Sprintf("%s~%d", o.Name, n+1)
 	}
 	o.Pos = len(s.asserts)
+	if len(s.curSkip) > 0 {
+		o.Skip = append([][2]int{}, s.curSkip...)
+	}
+	o.Tag = s.curTag
 	if o.Inputs == nil {
 		o.Inputs = s.inputs
 	}
@@ -269,6 +288,18 @@ func (s *Session) queryWith(o *Obligation, reveal bool) string {
 	sb.WriteString("; obligation " + o.Name + "\n; " + strings.ReplaceAll(o.Src, "\n", " ") + "\n")
 	sb.WriteString(s.preamble())
 	for i := 0; i < o.Pos && i < len(s.asserts); i++ {
+		hidden := false
+		for _, r := range o.Skip {
+			if i >= r[0] && i < r[1] && (strings.Contains(s.asserts[i], "(forall ") || strings.Contains(s.asserts[i], "(exists ")) {
+				hidden = true // only quantified facts are hidden; ground definitions stay
+			}
+		}
+		if i < len(s.assertTags) && s.assertTags[i] != 0 && s.assertTags[i] != o.Tag && (strings.Contains(s.asserts[i], "(forall ") || strings.Contains(s.asserts[i], "(exists ")) {
+			hidden = true // made inside the body of another isolated loop whose only exits leave from its head
+		}
+		if hidden {
+			continue
+		}
 		sb.WriteString(s.asserts[i])
 		sb.WriteString("\n")
 	}
